@@ -7,6 +7,7 @@
   constants, wavelengths, areas × widths and Vega fluxes.
 -/
 import Synphot.Lemmas.Units
+import Synphot.Lemmas.Binning
 
 set_option linter.unusedSectionVars false
 set_option linter.unusedVariables false
@@ -115,9 +116,10 @@ theorem vegamag_def (p v : K) (hv : s.vega = some v) (hp : 0 < p / v) :
 
 /-- the count factor of `convert_flux` is bin width × area, with the widths of
 `calculate_bin_widths(calculate_bin_edges(wavelengths))` -/
-theorem countFactors_def (w e bw : List K) (area : K) (he : binEdges w = .ok e)
-    (hw : binWidths e = .ok bw) : countFactors w area = .ok (bw.map (· * area)) := by
-  simp [countFactors, he, hw, bind, Except.bind, pure, Except.pure]
+theorem countFactors_def (w e bw : List K) (area : K) (hv : validateWavelengths w = .ok ())
+    (he : binEdges w = .ok e) (hw : binWidths e = .ok bw) :
+    countFactors w area = .ok (bw.map (· * area)) := by
+  simp [countFactors, calcBinEdges_eq w e hv he, hw, bind, Except.bind, pure, Except.pure]
 
 /-! ### missing inputs raise instead of returning a number -/
 
